@@ -71,9 +71,12 @@ fn dots_are_members(parsed: &JoinInputDefault) -> bool {
     for b in &parsed.branches {
         for m in b.members() {
             if let ActionExpr::Process(ProcessExpr::Dot([e])) = m.expr() {
+                // member access: `__x . operand` is a postfix expression (field, method call, await, `?`,
+                // index or call of such), so that a further `.method()` / `.await` can follow it
                 let probe = format!("__x . {}", e.to_token_stream());
-                if syn::parse_str::<syn::Expr>(&probe).is_err() {
-                    return false;
+                match syn::parse_str::<syn::Expr>(&probe) {
+                    Ok(syn::Expr::Field(_)) | Ok(syn::Expr::MethodCall(_)) | Ok(syn::Expr::Await(_)) | Ok(syn::Expr::Try(_)) | Ok(syn::Expr::Index(_)) | Ok(syn::Expr::Call(_)) => {}
+                    _ => return false,
                 }
             }
         }
